@@ -226,6 +226,45 @@ def build() -> Check:
     ck.ob("R2.transition-lands-where-its-caller-assumes", fn_construct(cr_), bool(cr_statuses) and cr_statuses <= parked,
           f"can_resume looks at {sorted(cr_statuses)}; only parked statuses ({sorted(parked)}) may be resumed by the timer", cell="can_resume")
 
+    # R4 the resume timer keeps a heap of tuples; the writer (schedule_resume) and the reader (_timer_loop) have to agree on the layout: the time is the
+    # FIRST element (the heap orders by it), the reader peeks at the top entry [0] and takes the time from the position the writer put it in, and unpacks
+    # the branch from the position the writer put it in. (The model records schedule_resume as an event; mutscan: `[0][0]` -> `[1][0]` / `[0][1]` survived.)
+    ts_cls_ = prog.cls("concurrency.executor", "TimerScheduler")
+    sr_, tl_ = ts_cls_.methods.get("schedule_resume"), ts_cls_.methods.get("_timer_loop")
+    if sr_ is None or tl_ is None:
+        raise AnalysisError("TimerScheduler.schedule_resume / _timer_loop not found")
+    pushes = [c for c in ast.walk(sr_.node) if isinstance(c, ast.Call) and ast.unparse(c.func).endswith("heappush") and len(c.args) == 2 and isinstance(c.args[1], ast.Tuple)]
+    if len(pushes) != 1:
+        raise AnalysisError("schedule_resume: expected one heappush of a tuple")
+    heap_txt = ast.unparse(pushes[0].args[0])
+    layout = [ast.unparse(e) for e in pushes[0].args[1].elts]
+    sr_params = [a.arg for a in sr_.node.args.args[1:]]
+    time_param = next((p_ for p_ in sr_params if "time" in p_), None)
+    branch_param = next((p_ for p_ in sr_params if p_ != time_param), None)
+    if time_param is None or branch_param is None or time_param not in layout or branch_param not in layout:
+        raise AnalysisError(f"schedule_resume: parameters {sr_params} not found in the pushed tuple {layout}")
+    t_pos, b_pos = layout.index(time_param), layout.index(branch_param)
+    peeks = [n for n in ast.walk(tl_.node) if isinstance(n, ast.Subscript) and isinstance(n.value, ast.Subscript) and ast.unparse(n.value.value) == heap_txt]
+    bad_heap = []
+    if t_pos != 0:
+        bad_heap.append(f"the resume time is element {t_pos} of the pushed tuple {layout}: the heap orders by element 0")
+    for pk in peeks:
+        top, fld = ast.unparse(pk.value.slice), ast.unparse(pk.slice)
+        if top != "0" or fld != str(t_pos):
+            bad_heap.append(f"line {pk.lineno}: `{ast.unparse(pk)}` is read as the next resume time (top entry is [0], the time is at [{t_pos}])")
+    pops = [st for st in ast.walk(tl_.node) if isinstance(st, ast.Assign) and isinstance(st.value, ast.Call) and ast.unparse(st.value.func).endswith("heappop")]
+    for st in pops:
+        tg = st.targets[0]
+        if not (isinstance(tg, ast.Tuple) and len(tg.elts) == len(layout)):
+            bad_heap.append(f"line {st.lineno}: the popped entry is not unpacked into {len(layout)} names")
+            continue
+        used = [i for i, e in enumerate(tg.elts) if isinstance(e, ast.Name) and e.id != "_"]
+        if used != [b_pos] and not (set(used) >= {b_pos}):
+            bad_heap.append(f"line {st.lineno}: the branch is taken from position {used} of the popped entry, the writer put it at {b_pos}")
+    ck.floor("timer_heap_reads", len(peeks) + len(pops), 3)
+    ck.ob("R4.timer-heap-layout-agrees", fn_construct(tl_), not bad_heap, "; ".join(bad_heap[:2]) + ": the timer sleeps until the wrong moment, dies on an IndexError, or resubmits "
+          "something that is not the branch - the parked branch is not resumed in this invocation" if bad_heap else f"layout {layout}")
+
     def mk(it, label, sname):
         e = Obj(exe_cls, label=f"{label}.exe")
         e.fields.update(index=Sym(f"{label}.index"), func=Sym(f"{label}.func"))
